@@ -15,7 +15,7 @@
    default comes back as the default (only -0.0 vs +0.0 differ). *)
 From Coq Require Import List NArith ZArith Bool Arith Lia.
 From TarsV Require Import Gen.Consts Base.Hex Codec.Wire Codec.Skip Codec.Prim Codec.GenCodec Codec.Corr
-  Codec.RoundTrip Codec.RoundTripProofs Codec.SkipProofs Frame.Framing Rpc.Filters Rpc.FiltersProofs Rpc.EndToEnd Rpc.EndToEndProofs Rpc.EndToEndConc Rpc.ValueWire.
+  Codec.RoundTrip Codec.RoundTripProofs Codec.SkipProofs Frame.Framing Rpc.Filters Rpc.FiltersProofs Rpc.EndToEnd Rpc.EndToEndProofs Rpc.EndToEndConc Rpc.ValueWire Rpc.PriorIndep.
 Import ListNotations.
 Open Scope N_scope.
 
@@ -139,6 +139,25 @@ Proof.
   rewrite !app_length. specialize (IH fds Js _ HJ). lia.
 Qed.
 
+(* the recursion depth a member list needs, without a term for the number of members: member i is reached after i-1
+   required members of at least one byte each *)
+Lemma need_fields_bound2 e (g : ty -> nat) : forall fds vs,
+  Forall2 (fun fd x => (need x <= g (fty fd) + 2 * length (enc_var e (ftag fd) (freq fd) (fty fd) (fdef fd) x))%nat /\
+                       (1 <= length (enc_var e (ftag fd) (freq fd) (fty fd) (fdef fd) x))%nat) fds vs ->
+  (need_list vs <= 2 + tmax g fds + 2 * length (RoundTrip.enc_fields e vs fds))%nat.
+Proof.
+  induction 1 as [|fd x fds vs [Hb H1] _ IH]; cbn [need_list RoundTrip.enc_fields length tmax fold_right]; [lia|].
+  fold (tmax g fds). rewrite app_length. lia.
+Qed.
+Lemma required_nonempty e fds vs : Forall2 (fun fd x => has_type e (fty fd) x) fds vs -> Forall (fun fd => freq fd = true) fds ->
+  Forall2 (fun fd x => (1 <= length (enc_var e (ftag fd) (freq fd) (fty fd) (fdef fd) x))%nat) fds vs.
+Proof.
+  induction 1 as [|fd x fds vs Hx _ IH]; intros Hr; [constructor|]. inversion Hr as [|? ? Hf Hr']; subst.
+  constructor; [rewrite Hf; now apply enc_var_req_length|now apply IH].
+Qed.
+Lemma Forall2_conj {A B} (P Q : A -> B -> Prop) l1 l2 : Forall2 P l1 l2 -> Forall2 Q l1 l2 -> Forall2 (fun a b => P a b /\ Q a b) l1 l2.
+Proof. induction 1; intros H2; inversion H2; subst; constructor; auto. Qed.
+
 (* ---------- the member-list round trip, from C03's rt_all ---------- *)
 Section Full.
   Variable e : env.
@@ -150,16 +169,17 @@ Section Full.
      within k and of finite depth, and few and shallow enough for the decoder's fuel 4 * length + 64 *)
   Definition member_fine (fd : field) : Prop :=
     ty_nest k e (fty fd) = true /\ tfin n e (fty fd) = true /\ fdef fd = None.
-  Definition fuel_static (fds : schema) : Prop := (length fds + tmax (tneed n e) fds + k + 4 <= 64)%nat.
+  Definition fuel_static (fds : schema) : Prop := (tmax (tneed n e) fds + k + 5 <= 64)%nat.
+  Definition all_required (fds : schema) : Prop := Forall (fun fd => freq fd = true) fds.
 
   Lemma fields_rt fds vs ps tail :
     Forall2 (fun fd x => has_type e (fty fd) x) fds vs -> Forall member_fine fds -> schema_ascending fds ->
     Forall2 (fun fd p => zlike e (fty fd) p) fds ps ->
-    (forall fd, In fd fds -> follows (ftag fd) tail) -> fuel_static fds ->
+    (forall fd, In fd fds -> follows (ftag fd) tail) -> all_required fds -> fuel_static fds ->
     dec_fields (4 * length (RoundTrip.enc_fields e vs fds ++ tail) + 64) e fds ps (RoundTrip.enc_fields e vs fds ++ tail)
     = DOk (norm_fields e vs fds) tail.
   Proof.
-    intros Hty Hmem Hasc Hps Hfo Hfuel.
+    intros Hty Hmem Hasc Hps Hfo Hreq Hfuel.
     assert (Hl : length fds = length vs) by (now apply Forall2_len in Hty).
     destruct (rt_all e k Hwf (4 * length (RoundTrip.enc_fields e vs fds ++ tail) + 64)) as (_ & _ & _ & _ & HF).
     specialize (HF fds vs ps (map (fun _ => []) fds) None tail).
@@ -176,7 +196,7 @@ Section Full.
       assert (Hb : Forall2 (fun fd x => (need x <= tneed n e (fty fd) + 2 * length (enc_var e (ftag fd) (freq fd) (fty fd) (fdef fd) x))%nat) fds vs).
       { apply fields_bound_aux; [exact Hty|]. intros fd Hin x tag req d Hx. apply need_bound; [|exact Hx].
         rewrite Forall_forall in Hmem. now destruct (Hmem fd Hin) as (_ & H & _). }
-      pose proof (need_fields_bound e (tneed n e) fds vs Hb) as Hn.
+      pose proof (need_fields_bound2 e (tneed n e) fds vs (Forall2_conj _ _ _ _ Hb (required_nonempty e fds vs Hty Hreq))) as Hn.
       unfold fuel_static in Hfuel. rewrite app_length in *. lia.
   Qed.
 
@@ -262,6 +282,7 @@ Section Full.
         { unfold in_fields, out_fields. fold keep_in keep_out. rewrite <- (ins_first_fields (fs_args f) 1 Hif).
           rewrite <- (filter_true_all (arg_fields 1 (fs_args f))). apply picked_ascending; lia. }
         exact (ascending_app 0 _ _ Hasc fd fo Hin Hfo).
+    - unfold all_required, in_fields. apply picked_members. reflexivity.
     - exact Hfuel.
   Qed.
 
@@ -269,11 +290,11 @@ Section Full.
   Lemma fields_rt_junk fds vs ps Js tail :
     Forall2 (fun fd x => has_type e (fty fd) x) fds vs -> Forall member_fine fds -> schema_ascending fds ->
     Forall2 (fun fd p => zlike e (fty fd) p) fds ps -> junks_ok None fds Js ->
-    (forall fd, In fd fds -> follows (ftag fd) tail) -> fuel_static fds ->
+    (forall fd, In fd fds -> follows (ftag fd) tail) -> all_required fds -> fuel_static fds ->
     dec_fields (4 * length (encx_fields e vs fds Js ++ tail) + 64) e fds ps (encx_fields e vs fds Js ++ tail)
     = DOk (norm_fields e vs fds) tail.
   Proof.
-    intros Hty Hmem Hasc Hps HJ Hfo Hfuel.
+    intros Hty Hmem Hasc Hps HJ Hfo Hreq Hfuel.
     destruct (rt_all e k Hwf (4 * length (encx_fields e vs fds Js ++ tail) + 64)) as (_ & _ & _ & _ & HF).
     apply (HF fds vs ps Js None tail); clear HF.
     - exact Hty.
@@ -288,7 +309,7 @@ Section Full.
       assert (Hb : Forall2 (fun fd x => (need x <= tneed n e (fty fd) + 2 * length (enc_var e (ftag fd) (freq fd) (fty fd) (fdef fd) x))%nat) fds vs).
       { apply fields_bound_aux; [exact Hty|]. intros fd Hin x tag req d Hx. apply need_bound; [|exact Hx].
         rewrite Forall_forall in Hmem. now destruct (Hmem fd Hin) as (_ & H & _). }
-      pose proof (need_fields_bound e (tneed n e) fds vs Hb) as Hn.
+      pose proof (need_fields_bound2 e (tneed n e) fds vs (Forall2_conj _ _ _ _ Hb (required_nonempty e fds vs Hty Hreq))) as Hn.
       pose proof (encx_length e vs fds Js None HJ) as Hle.
       unfold fuel_static in Hfuel. rewrite app_length in *. lia.
   Qed.
@@ -381,7 +402,31 @@ Section Full.
     - intros fd Hin. apply junk_tail_follows. specialize (Hfd fd Hin).
       clear - HJt Hfd. induction Jt as [|p r IH]; [constructor|]. inversion HJt as [|? ? [H1 _] H2]; inversion Hfd; subst.
       constructor; [split; assumption|]. now apply IH.
+    - unfold all_required, in_fields. apply picked_members. reflexivity.
     - exact Hfuel.
+  Qed.
+
+  (* for finite (non-recursive) types the nesting depth of a value is bounded by its type (ValueWire.vdepth_bound) and the
+     static size condition keeps that bound below the skip depth limit regenerated from the code: only the sizes remain *)
+  Definition outs_small (f : fsig) (args : list val) : Prop := Forall small (outs_of f args).
+  Lemma maxd_ge_64 : 64 <= maxd.
+  Proof. vm_compute. discriminate. Qed.
+
+  Lemma outs_skippable_static f args :
+    args_typed e (fs_args f) args -> sig_args_ok f -> fuel_static (rsp_fields f) -> outs_small f args -> outs_skippable f args.
+  Proof.
+    intros Hty [Hfine _] Hfuel Hsm. unfold outs_skippable, outs_small in *.
+    assert (Ht : Forall2 (fun fd x => has_type e (fty fd) x) (out_fields f) (outs_of f args)).
+    { rewrite out_fields_eqb. unfold outs_of, dirs_of. now apply picked_typed. }
+    assert (Hm : Forall member_fine (out_fields f)) by (unfold out_fields; now apply picked_fine).
+    assert (Hb : forall fd, In fd (out_fields f) -> (tneed n e (fty fd) <= 59)%nat).
+    { intros fd Hin. unfold fuel_static, rsp_fields in Hfuel.
+      pose proof (tmax_ge (tneed n e) (ret_fields f ++ out_fields f) fd ltac:(apply in_or_app; now right)). lia. }
+    clear Hfuel Hfine Hty. revert Hsm Hm Hb. induction Ht as [|fd x fds vs Hx _ IH]; intros Hsm Hm Hb; [constructor|].
+    inversion Hsm; inversion Hm as [|? ? (_ & Hfin & _) Hm']; subst. constructor.
+    - split; [assumption|]. pose proof (vdepth_bound e n (fty fd) x Hfin Hx). pose proof (Hb fd (or_introl eq_refl)).
+      pose proof maxd_ge_64. lia.
+    - apply IH; try assumption. intros fd' Hin. apply Hb. now right.
   Qed.
 
   (* ----- the results: the proxy decodes the (normalised) return value and out arguments into fresh variables ----- *)
@@ -394,21 +439,56 @@ Section Full.
   Lemma ret_fields_fine f : ret_ok f -> Forall member_fine (ret_fields f).
   Proof. unfold ret_ok, ret_fields. destruct (fs_ret f); intros H; constructor; [|constructor]. destruct H. repeat split; assumption. Qed.
 
-  Theorem results_decode_full f args vs :
-    results_typed f vs -> sig_args_ok f -> ret_ok f -> outs_fresh f args -> fuel_static (rsp_fields f) ->
-    results_decode e f args vs (norm_fields e vs (rsp_fields f)).
+  (* core: any targets for the out parameters that look like fresh variables *)
+  Lemma results_decode_priors f ps vs :
+    results_typed f vs -> sig_args_ok f -> ret_ok f -> Forall2 (fun fd p => zlike e (fty fd) p) (out_fields f) ps ->
+    fuel_static (rsp_fields f) ->
+    dec_list e (rsp_fields f) (zeros e (ret_fields f) ++ ps) (EndToEnd.enc_fields e (rsp_fields f) vs)
+    = DOk (norm_fields e vs (rsp_fields f)) [].
   Proof.
-    intros Hty [Hfine Hlen] Hret Hfresh Hfuel. exists []. unfold dec_list. rewrite enc_fields_bridge.
+    intros Hty [Hfine Hlen] Hret Hfresh Hfuel. unfold dec_list. rewrite enc_fields_bridge.
     assert (Hmem : Forall member_fine (rsp_fields f)).
     { unfold rsp_fields. apply Forall_app. split; [now apply ret_fields_fine|]. unfold out_fields. now apply picked_fine. }
-    pose proof (fields_rt (rsp_fields f) vs (zeros e (ret_fields f) ++ outs_of f args) [] Hty Hmem) as H.
+    pose proof (fields_rt (rsp_fields f) vs (zeros e (ret_fields f) ++ ps) [] Hty Hmem) as H.
     rewrite app_nil_r in H. apply H; clear H.
     - unfold rsp_fields, ret_fields, out_fields. destruct (fs_ret f); cbn [app].
       + cbn [schema_ascending mkfield ftag]. split; [lia|]. apply picked_ascending; lia.
       + apply (ascending_schema 0). apply picked_ascending; lia.
     - unfold rsp_fields. apply Forall2_app; [|exact Hfresh]. apply zeros_zlike. now apply ret_fields_fine.
     - intros; apply follows_nil.
+    - unfold all_required, rsp_fields. apply Forall_app. split.
+      + unfold ret_fields. destruct (fs_ret f); repeat constructor.
+      + unfold out_fields. apply picked_members. reflexivity.
     - exact Hfuel.
+  Qed.
+
+  Theorem results_decode_full f args vs :
+    results_typed f vs -> sig_args_ok f -> ret_ok f -> outs_fresh f args -> fuel_static (rsp_fields f) ->
+    results_decode e f args vs (norm_fields e vs (rsp_fields f)).
+  Proof. intros Hty Hs Hret Hfresh Hfuel. exists []. now apply results_decode_priors. Qed.
+
+  (* ANY content of the caller's out variables: a required non-array member decodes independently of its target
+     (Rpc/PriorIndep.v), so decoding into the caller's variables is decoding into fresh ones *)
+  Definition no_array_params (f : fsig) : Prop :=
+    Forall (fun p => not_array (fst p) = true) (fs_args f) /\ match fs_ret f with Some t => not_array t = true | None => True end.
+
+  Lemma rsp_fields_plain f : no_array_params f -> Forall plain_required (rsp_fields f).
+  Proof.
+    intros [Ha Hr]. unfold rsp_fields. apply Forall_app. split.
+    - unfold ret_fields. destruct (fs_ret f); constructor; [split; [reflexivity|exact Hr]|constructor].
+    - unfold out_fields. generalize 1. revert Ha. generalize (fs_args f). induction l as [|[t o] l IH]; intros Ha i; [constructor|].
+      inversion Ha as [|? ? Ht Hl]; subst. cbn [arg_fields filter snd]. destruct o; cbn [map fst]; [constructor; [split; [reflexivity|exact Ht]|]|]; now apply IH.
+  Qed.
+
+  Theorem results_decode_any_outs f args vs :
+    results_typed f vs -> sig_args_ok f -> ret_ok f -> no_array_params f -> fuel_static (rsp_fields f) ->
+    results_decode e f args vs (norm_fields e vs (rsp_fields f)).
+  Proof.
+    intros Hty Hs Hret Hna Hfuel. exists []. unfold dec_list.
+    rewrite (dec_fields_prior_indep e _ (rsp_fields f) (zeros e (ret_fields f) ++ outs_of f args)
+               (zeros e (ret_fields f) ++ zeros e (out_fields f)) _ (rsp_fields_plain f Hna)).
+    apply results_decode_priors; try assumption.
+    apply zeros_zlike. destruct Hs as [Hfine _]. unfold out_fields. now apply picked_fine.
   Qed.
 End Full.
 
@@ -436,7 +516,7 @@ Section FullCall.
   Theorem transparent_ok_full (Pc Ps : pfilters ev unit) i f args o id sv t ret outs rc rs :
     let q := mkreq e f args o false id sv t in
     find_fn i (fs_name f) = Some f -> sig_fine f ->
-    args_typed e (fs_args f) args -> outs_skippable f args -> outs_fresh e f args ->
+    args_typed e (fs_args f) args -> outs_skippable f args -> no_array_params f ->
     impl (fs_name f) (ins_seen f args) (ctx_of o) (status_of o) = IOk ret outs rc rs ->
     results_typed e f (results ret outs) ->
     wire_ok_req e sid_req max_pkt q -> wire_ok_rsp e sid_rsp max_pkt (ok_reply e f q ret outs rc rs) ->
@@ -448,7 +528,7 @@ Section FullCall.
     apply (transparent_ok_decoded e sid_req sid_rsp max_pkt impl Pc Ps i f args (ins_seen f args) o id sv t ret outs rc rs
              (results_seen f ret outs)); try assumption.
     - now apply (args_decode_any e k n Hwf Hk).
-    - now apply (results_decode_full e k n Hwf Hk).
+    - now apply (results_decode_any_outs e k n Hwf Hk).
   Qed.
 
   Theorem transparent_err_full (Pc Ps : pfilters ev unit) i f args o id sv t c m :
@@ -588,11 +668,13 @@ Section Packets.
   Variable n : nat.
   Variable impl : bytes -> list val -> smap -> smap -> impl_res.
   Lemma Hk64 : (k <= 64)%nat. Proof. lia. Qed.
+  Lemma skippable_of_small f args : sig_fine e k n f -> args_typed e (fs_args f) args -> outs_small f args -> outs_skippable f args.
+  Proof. intros (Ha & _ & _ & Hfr) Hty Hsm. exact (outs_skippable_static e k n Hk64 f args Hty Ha Hfr Hsm). Qed.
 
   Theorem transparent_ok_closed (Pc Ps : pfilters ev unit) i f args o id sv t ret outs rc rs :
     let q := mkreq e f args o false id sv t in
     find_fn i (fs_name f) = Some f -> sig_fine e k n f ->
-    args_typed e (fs_args f) args -> outs_skippable f args -> outs_fresh e f args ->
+    args_typed e (fs_args f) args -> outs_small f args -> no_array_params f ->
     impl (fs_name f) (ins_seen e f args) (ctx_of o) (status_of o) = IOk ret outs rc rs ->
     results_typed e f (results ret outs) ->
     req_sendable q -> rsp_sendable (ok_reply e f q ret outs rc rs) ->
@@ -601,33 +683,56 @@ Section Packets.
      core_events_at Pc Ps f (ins_seen e f args) o true).
   Proof.
     cbn zeta. intros Hf Hsig Hty Hsk Hfresh Himpl Hrty [Hq Hqf] [Hp Hpf].
-    apply (transparent_ok_full e k n Hwf Hk64); try assumption.
+    apply (transparent_ok_full e k n Hwf Hk64); try assumption; try (now apply skippable_of_small).
     - now apply wire_ok_req_full.
     - now apply wire_ok_rsp_full.
   Qed.
 
+  (* exact values, any content of the caller's out variables: for values the codec does not normalise
+     ([ins_seen] = the in arguments, [results_seen] = the results; always so unless an optional scalar struct member
+     equals its default without being identical to it, i.e. -0.0 against +0.0) *)
+  Definition canonical_call (f : fsig) (args : list val) (ret : option val) (outs : list val) : Prop :=
+    ins_seen e f args = ins_of f args /\ results_seen e f ret outs = results ret outs.
+
+  Theorem transparent_ok_any_outs (Pc Ps : pfilters ev unit) i f args o id sv t ret outs rc rs :
+    let q := mkreq e f args o false id sv t in
+    find_fn i (fs_name f) = Some f -> sig_fine e k n f ->
+    args_typed e (fs_args f) args -> outs_small f args -> no_array_params f ->
+    impl (fs_name f) (ins_of f args) (ctx_of o) (status_of o) = IOk ret outs rc rs -> ret_shape f ret ->
+    results_typed e f (results ret outs) -> canonical_call f args ret outs ->
+    req_sendable q -> rsp_sendable (ok_reply e f q ret outs rc rs) ->
+    call e sid_req sid_rsp max_pkt impl (filters_of inv_res Pc) (filters_of disp_res Ps) i f args o false id sv t =
+    (COk ret outs (maps_after o rc rs), core_events Pc Ps f args o true).
+  Proof.
+    cbn zeta. intros Hf Hsig Hty Hsk Hna Himpl Hshape Hrty [Hci Hcr] Hq Hp.
+    rewrite (transparent_ok_closed Pc Ps i f args o id sv t ret outs rc rs); try assumption.
+    - unfold core_events. rewrite Hci, Hcr. f_equal. unfold ret_of, outs_from, results. unfold ret_shape in Hshape.
+      destruct (fs_ret f), ret; try contradiction; reflexivity.
+    - now rewrite Hci.
+  Qed.
+
   Theorem transparent_err_closed (Pc Ps : pfilters ev unit) i f args o id sv t c m :
     let q := mkreq e f args o false id sv t in
-    find_fn i (fs_name f) = Some f -> sig_fine e k n f -> args_typed e (fs_args f) args -> outs_skippable f args ->
+    find_fn i (fs_name f) = Some f -> sig_fine e k n f -> args_typed e (fs_args f) args -> outs_small f args ->
     impl (fs_name f) (ins_seen e f args) (ctx_of o) (status_of o) = IFail c m -> c <> 0%Z ->
     req_sendable q -> rsp_sendable (err_reply q c m) ->
     call e sid_req sid_rsp max_pkt impl (filters_of inv_res Pc) (filters_of disp_res Ps) i f args o false id sv t =
     (err_seen c m, core_events_at Pc Ps f (ins_seen e f args) o true).
   Proof.
     cbn zeta. intros Hf Hsig Hty Hsk Himpl Hc [Hq Hqf] [Hp Hpf].
-    apply (transparent_err_full e k n Hwf Hk64); try assumption.
+    apply (transparent_err_full e k n Hwf Hk64); try assumption; try (now apply skippable_of_small).
     - now apply wire_ok_req_full.
     - now apply wire_ok_rsp_full.
   Qed.
 
   Theorem oneway_closed (Pc Ps : pfilters ev unit) i f args o id sv t :
     let q := mkreq e f args o true id sv t in
-    find_fn i (fs_name f) = Some f -> sig_fine e k n f -> args_typed e (fs_args f) args -> outs_skippable f args -> req_sendable q ->
+    find_fn i (fs_name f) = Some f -> sig_fine e k n f -> args_typed e (fs_args f) args -> outs_small f args -> req_sendable q ->
     call e sid_req sid_rsp max_pkt impl (filters_of inv_res Pc) (filters_of disp_res Ps) i f args o true id sv t =
     (CSent, core_events_at Pc Ps f (ins_seen e f args) o false).
   Proof.
     cbn zeta. intros Hf Hsig Hty Hsk [Hq Hqf].
-    apply (oneway_full e k n Hwf Hk64); try assumption. now apply wire_ok_req_full.
+    apply (oneway_full e k n Hwf Hk64); try assumption; try (now apply skippable_of_small). now apply wire_ok_req_full.
   Qed.
 
   (* ----- concurrent callers: the packet-codec hypotheses of EndToEndConc.concurrent follow from sendability ----- *)
@@ -665,18 +770,25 @@ Section Packets.
   Qed.
 End Packets.
 
-(* ---------- the value clause at full strength (every signature, any content of the caller's out variables, exact
-   values): kept as a statement; refuted on the model and on the code by a pre-filled out variable
-   (Rpc/EndToEndExamples.v, prefilled_out_refutes) ---------- *)
+(* ---------- the value clause for ANY content of the caller's out variables, as a closed statement (proved in
+   Props/C01.v from transparent_ok_any_outs) ---------- *)
 Definition transparent_ok_statement : Prop :=
   forall e k n sid_req sid_rsp max impl (Pc Ps : pfilters ev unit) i f args o id sv t ret outs rc rs,
     wf_schema k e -> (k <= 40)%nat ->
     fields_of e sid_req = schema_requestf_RequestPacket -> fields_of e sid_rsp = schema_requestf_ResponsePacket ->
     max < 4294967296 ->
     let q := mkreq e f args o false id sv t in
-    find_fn i (fs_name f) = Some f -> sig_fine e k n f -> args_typed e (fs_args f) args -> outs_skippable f args ->
+    find_fn i (fs_name f) = Some f -> sig_fine e k n f -> args_typed e (fs_args f) args -> outs_small f args ->
+    no_array_params f ->
     impl (fs_name f) (ins_of f args) (ctx_of o) (status_of o) = IOk ret outs rc rs -> ret_shape f ret ->
-    results_typed e f (results ret outs) ->
+    results_typed e f (results ret outs) -> canonical_call e f args ret outs ->
     req_sendable e sid_req max q -> rsp_sendable e sid_rsp max (ok_reply e f q ret outs rc rs) ->
     fst (call e sid_req sid_rsp max impl (filters_of inv_res Pc) (filters_of disp_res Ps) i f args o false id sv t)
     = COk ret outs (maps_after o rc rs).
+
+Theorem transparent_ok_statement_holds : transparent_ok_statement.
+Proof.
+  intros e k n sid_req sid_rsp max impl Pc Ps i f args o id sv t ret outs rc rs Hwf Hk Hq Hp Hm. cbn zeta. intros.
+  rewrite (transparent_ok_any_outs e k Hwf Hk sid_req sid_rsp Hq Hp max Hm n impl Pc Ps i f args o id sv t ret outs rc rs); try assumption.
+  reflexivity.
+Qed.
